@@ -421,5 +421,7 @@ def run(ctx):
     check_effect_tables(ctx, "C12")
     from ..rules_common import check_presence_tests, ARG_SCOPE
     check_presence_tests(ctx, "C12.PRESENCE", classes=ARG_SCOPE.get("C12", []))
+    from ..rules_common import check_param_rebinding
+    check_param_rebinding(ctx, "C12.PARAMS", classes=ARG_SCOPE.get("C12", []))
 
 
